@@ -21,8 +21,10 @@ TRUSTED = [
     "__getattr__), str.split/find/slicing, ast.literal_eval on the literal subset",
 ]
 ASSUME = [
-    "key components are public names (no leading underscore, no dunder): the private backing fields that alias a "
-    "property (_row/row) and list indices (models.0) are outside the modelled key space",
+    "private names occur as LAST key component only, and only those that do not exist or are not the backing field of a "
+    "setting listed in the snapshot: a private backing field (_row / row, _phasing / phasing, Arguments._arguments) and a "
+    "list index (models.0 / <model name>) are a second key for a setting that already has one, and the tree model has no "
+    "sharing inside one processor; such keys are outside the modelled key space",
     "scalar leaves expose no attributes (int.real, str.upper ... are not settings and are not generated)",
     "APD avalanche_gain / pixel_reset_voltage / common_voltage are a documented coupled triple: when one of them is "
     "assigned, the triple and its derived caches are not compared",
@@ -318,6 +320,29 @@ def mutate_key(r, key: str, pipe):
     return ".".join(parts), kind
 
 
+# private names as LAST component: names that do not exist (must be refused, nothing may be created) and existing
+# private attributes that are not the backing field of a setting listed in the snapshot (those would be a second key
+# for the same setting, which the tree model — no sharing inside one processor — does not represent)
+PRIVATE_EXISTING = {0: ["_numbytes", "_result", "_log"],                       # Processor
+                    1: ["_numbytes", "_output_dir", "_geometry", "_memory"],   # Detector
+                    2: ["_numbytes"],                                          # Geometry / Environment / Characteristics
+                    "group": ["_name", "_log"], "model": ["_func_name", "_func", "_arguments"]}
+
+
+def private_key(r, key: str):
+    parts = key.split(".")
+    if parts[0] == "detector":
+        depth = r.choice([0, 1, 2])
+        prefix, pool = parts[:depth], PRIVATE_EXISTING[depth]
+    else:
+        depth = r.choice([0, 2, 3, 4]) if len(parts) >= 5 else r.choice([0, 2, 3])
+        prefix = parts[:depth]
+        pool = {0: PRIVATE_EXISTING[0], 2: PRIVATE_EXISTING["group"], 3: PRIVATE_EXISTING["model"], 4: []}[depth]
+    if pool and r.random() < 0.6:
+        return ".".join(prefix + [r.choice(pool)]), "private_existing"
+    return ".".join(prefix + [r.choice(["_x", "_cache", "_value_", "_" + parts[-1] + "_", "__x"])]), "private_missing"
+
+
 def gen_set_cases(ctx: Ctx, budget: int):
     r = ctx.rng("set")
     cases = []
@@ -341,6 +366,8 @@ def gen_set_cases(ctx: Ctx, budget: int):
             roll = r.random()
             if roll < 0.45:
                 k2, kind = key, "valid"
+            elif roll < 0.52:
+                k2, kind = private_key(r, key)
             else:
                 k2, kind = mutate_key(r, key, pipe)
             want_valid = r.random() < 0.8
